@@ -142,23 +142,28 @@ def confirm(a):
             sh(['git', '-C', REPO, 'worktree', 'remove', '--force', wt])
 
 
-def detect_one(sid, props):
+def detect_one(sid, props, target=REPO, checker=VERIF, jobs=16):
+    """apply the stored change to `target` (/repo, or a scratch worktree of it at the same commit), run the checks of
+    `checker` (this /verif, or a frozen copy of it) on that tree, undo the change."""
     dst = os.path.join(SEEDED, sid)
     patch = os.path.join(dst, 'patch.diff')
-    rc, out = sh(['git', '-C', REPO, 'status', '--porcelain'])
+    rc, out = sh(['git', '-C', target, 'status', '--porcelain'])
     if out.strip():
-        print('/repo is not clean; refusing:', out)
+        print('%s is not clean; refusing: %s' % (target, out))
         return None
-    rc, out = sh(['git', '-C', REPO, 'apply', patch])
+    if target != REPO and sh(['git', '-C', target, 'rev-parse', 'HEAD'])[1].strip() != sh(['git', '-C', REPO, 'rev-parse', 'HEAD'])[1].strip():
+        print('%s is not at the commit of /repo; refusing' % target)
+        return None
+    rc, out = sh(['git', '-C', target, 'apply', patch])
     if rc:
-        print('patch does not apply to /repo:', out)
+        print('patch does not apply to %s: %s' % (target, out))
         return None
     results = {}
     try:
         from concurrent.futures import ThreadPoolExecutor
 
         def one(p):
-            r = subprocess.run([sys.executable, os.path.join(VERIF, 'check.py'), p, '--no-evidence'], capture_output=True, text=True)
+            r = subprocess.run([sys.executable, os.path.join(checker, 'check.py'), p, '--no-evidence', '--repo', target], capture_output=True, text=True)
             lines = (r.stdout + r.stderr).splitlines()
             hits = []
             import re
@@ -168,14 +173,16 @@ def detect_one(sid, props):
                 elif ln.startswith('ANALYSIS-ERROR'):
                     hits.append(ln[:400])
             return p, r.returncode, hits
-        with ThreadPoolExecutor(max_workers=16) as ex:
+        with ThreadPoolExecutor(max_workers=jobs) as ex:
             for p, rc, hits in ex.map(one, props):
                 results[p] = {'exit': rc, 'reports': hits[:6]}
     finally:
-        sh(['git', '-C', REPO, 'checkout', '--', '.'])
-    left = sh(['git', '-C', REPO, 'status', '--porcelain'])[1].strip()
+        sh(['git', '-C', target, 'checkout', '--', '.'])
+        if target != REPO:
+            sh(['git', '-C', target, 'clean', '-fdq'])
+    left = sh(['git', '-C', target, 'status', '--porcelain'])[1].strip()
     if left:
-        print('WARNING: /repo not clean after undo:', left)
+        print('WARNING: %s not clean after undo: %s' % (target, left))
     meta = json.load(open(os.path.join(dst, 'meta.json')))
     caught = sorted(p for p, r in results.items() if r['exit'] == 1)
     broken = sorted(p for p, r in results.items() if r['exit'] not in (0, 1))
@@ -189,6 +196,45 @@ def detect_one(sid, props):
         for h in results[p]['reports'][:2]:
             print('      %s: %s' % (p, h[:230]))
     return det
+
+
+def detect_all(lanes, ids):
+    """every stored change, each applied to a scratch worktree of /repo (never to /repo itself), checked by a frozen copy
+    of this /verif taken at the start (so the checker can be edited meanwhile); scratch is removed at the end."""
+    from concurrent.futures import ThreadPoolExecutor
+    import queue
+    work = tempfile.mkdtemp(prefix='seed-detect-')
+    snap = os.path.join(work, 'verif')
+    shutil.copytree(VERIF, snap, ignore=shutil.ignore_patterns('seeded', 'evidence', '.git', '__pycache__', '.cache'))
+    wts = queue.Queue()
+    made = []
+    try:
+        for i in range(lanes):
+            wt = os.path.join(work, 'wt%d' % i)
+            rc, out = sh(['git', '-C', REPO, 'worktree', 'add', '--detach', wt, 'HEAD'])
+            if rc:
+                print('cannot create worktree:', out)
+                return 2
+            made.append(wt)
+            wts.put(wt)
+        todo = ids or stored()
+
+        def one(sid):
+            wt = wts.get()
+            try:
+                return detect_one(sid, PROPS, target=wt, checker=snap, jobs=max(2, 16 // lanes))
+            finally:
+                wts.put(wt)
+        with ThreadPoolExecutor(max_workers=lanes) as ex:
+            res = list(ex.map(one, todo))
+        missed = [sid for sid, d in zip(todo, res) if d is not None and not d['caught_by']]
+        print('detect-all: %d changes, %d not run, %d missed%s' % (len(todo), sum(1 for d in res if d is None), len(missed),
+                                                                  (': ' + ', '.join(missed)) if missed else ''))
+        return 0
+    finally:
+        for wt in made:
+            sh(['git', '-C', REPO, 'worktree', 'remove', '--force', wt])
+        shutil.rmtree(work, ignore_errors=True)
 
 
 def stored():
@@ -224,7 +270,9 @@ def main():
     d = sub.add_parser('detect')
     d.add_argument('id')
     d.add_argument('props', nargs='*')
-    sub.add_parser('detect-all')
+    da = sub.add_parser('detect-all')
+    da.add_argument('--lanes', type=int, default=4, help='scratch worktrees used in parallel')
+    da.add_argument('ids', nargs='*')
     sub.add_parser('table')
     a = ap.parse_args()
     if a.cmd == 'confirm':
@@ -232,9 +280,7 @@ def main():
     if a.cmd == 'detect':
         return 0 if detect_one(a.id, a.props or PROPS) is not None else 2
     if a.cmd == 'detect-all':
-        for sid in stored():
-            detect_one(sid, PROPS)
-        return 0
+        return detect_all(a.lanes, a.ids)
     if a.cmd == 'table':
         table()
         return 0
